@@ -1121,14 +1121,19 @@ fn expect(case: &Case) -> Expect {
             }
             // RFC 9000 §19.3.1: "If any computed packet number is negative, an endpoint MUST
             // generate a connection error of type FRAME_ENCODING_ERROR"
+            // The frame reader is the place where a peer's frame gets this verdict: a frame it
+            // rejects never reaches a handler (a value no peer can deliver is outside the
+            // property); if it lets the frame through, the handler has to produce the error.
             if ack_negative(*largest, *first, ranges) {
                 clauses.push("negative-packet-number");
                 e.must_err.push("FrameEncoding");
+                e.undecodable = true;
             }
             e.clause = if clauses.is_empty() { "valid".into() } else { clauses.join("+") };
             if *target != Tgt::Sent {
-                // on_rcvd_ack / cc.on_ack_rcvd return nothing: only cost and panics are judged
-                e.must_err.clear();
+                // on_rcvd_ack / cc.on_ack_rcvd return nothing: beyond the decoder's verdict only
+                // cost and panics are judged
+                e.must_err.retain(|k| *k == "FrameEncoding");
             }
         }
         Case::Pn { .. } => e.clause = "any".into(),
@@ -1501,7 +1506,9 @@ fn cases_ack(target: Tgt, thorough: bool) -> Vec<Case> {
         }
         if far_ok {
             // far gaps and range lengths below a valid (or the largest possible) Largest Acknowledged
-            for l in [n.checked_sub(1), Some(VMAX)].into_iter().flatten() {
+            let mut far_ls: Vec<u64> = [n.checked_sub(1), n.checked_sub(2), Some(VMAX)].into_iter().flatten().collect();
+            far_ls.dedup();
+            for l in far_ls {
                 let mut gs = vec![0, 1 << 30, VMAX - 2, VMAX];
                 gs.extend(l.checked_sub(2));
                 for &g in &uniq(gs) {
@@ -2115,11 +2122,11 @@ pub fn run(args: &Args) -> i32 {
     }
     let mut report = Report::new(args, "exploration");
     let epoch = StdInstant::now();
-    let deadline = epoch + Duration::from_secs(if args.thorough { 540 } else { 50 });
+    let deadline = epoch + Duration::from_secs(if args.thorough { 540 } else { 45 });
     let prod = prod_exe();
     let mut exes = vec![std::env::current_exe().expect("current_exe")];
     exes.extend(prod.clone());
-    report.assume("every frame travels as wire bytes through the real FrameReader (1-RTT packet type); the decoded frame is delivered; ACK frames are also built with AckFrame::new and written with the crate's writer, both must agree");
+    report.assume("the property is about frames a peer can deliver: every frame travels as wire bytes through the real FrameReader (1-RTT packet type) and only the decoded frame reaches a handler; a frame the reader rejects gets the verdict 'rejected by the decoder with <kind>' and is judged as such; ACK frames are built with AckFrame::new only to be written with the crate's writer (the decoded frame must equal it)");
     report.assume("cost bound per call: bytes allocated ≤ 64 KiB + 256 × (encoded frame bytes + records held); records held = packets in the journal / connection ids / streams created by the legitimate history; for a packet number the 'frame' is the smallest packet that carries it (25 bytes + pn)");
     report.assume("a case is 'far' if a numeric field exceeds what the endpoint holds by ≥ 10^6 (ACK Delay is a duration and relates to no record: not classified); far cases run only in child processes (lock-step batch children: RLIMIT_AS 2 GiB, 3 s watchdog per measured call, a child that never reached the call is retried once), all others in-process under catch_unwind with a 60 s hang monitor");
     report.assume("ACK handlers are driven separately in the order the per-space dispatcher uses: cc.on_ack_rcvd and rcvd_journal.on_rcvd_ack see every decodable ACK (validation comes later), the sent journal sees update_largest + the on_packet_acked loop of Ack*Space::recv_frame (ArcSentJournal<u32>, no qlog event)");
@@ -2154,7 +2161,8 @@ pub fn run(args: &Args) -> i32 {
     // one pool of in-process items and one pool of child items over all sub-checks
     let mut near: Vec<Item> = Vec::new();
     let mut child: Vec<Item> = Vec::new();
-    for (si, s) in subs.iter().enumerate() {
+    // cheap sub-checks first: if the wall-clock cap strikes, it strikes the watchdog-bound ACK tail
+    for (si, s) in subs.iter().enumerate().rev() {
         for c in &s.cases {
             if far_fields(c).is_empty() {
                 near.push(Item { sub: si, case: c.clone(), exe: None });
